@@ -408,6 +408,10 @@ def r4(ctx):
             n += 1
             ok = sorted(assigned) == sorted([what, what + "_set"])
             guard = any(x["k"] == "If" and render(peel(x["c"], methods=False)) == "!self.%s_set" % what for x in walk_exprs(h))
+            # the value is stored on every path that raises the flag (an unreadable entry must store its None, not keep a
+            # value of an earlier entry)
+            gl = {x["l"]["name"]: [guard_text(g) for g in (guards_of(h, x) or [])] for x in walk_exprs(h) if x["k"] == "Assign" and x["l"]["k"] == "Field"}
+            guard = guard and gl.get(what) == gl.get(what + "_set") == ["(!self.%s_set)" % what]
             ctx.obligation(ok and guard)
             if not (ok and guard):
                 ctx.violation("memo/update/%s" % what, ctx.where(name),
